@@ -281,6 +281,51 @@ def check_rejected_call(scn):
     return ev, True, None
 
 
+def check_mixed_width(scn):
+    """after a prefix of accepted inputs in mixed containers, an input of another width must be rejected whatever its
+    container (property C14: 'whatever mix of DataFrame / ndarray / list inputs preceded it')"""
+    name, variant, seed, prefix, bad_kind = scn["det"], scn["variant"], scn["seed"], scn["prefix"], scn["bad"]
+    kind = C.DETECTORS[name]["kind"]
+    st = C.stream(name, seed, len(prefix) + 2)
+    det, params = C.construct(name, variant)
+
+    def conv(x, k, cols=None):
+        a = np.asarray(x.values if isinstance(x, pd.DataFrame) else x, dtype=float)
+        if k == "df":
+            return pd.DataFrame(a, columns=cols or ["c%d" % j for j in range(a.shape[1])])
+        if k == "list":
+            return a.tolist()
+        return a
+    ev = 0
+    for i, k in enumerate(prefix):
+        C.seed_schedule(name, seed, i)
+        if i == 0 and C.needs_reference(name):
+            det.set_reference(conv(st[i][0], k))
+        else:
+            det.update(conv(st[i][0], k))
+        ev += 1
+    x = st[len(prefix)][0]
+    a = np.asarray(x.values if isinstance(x, pd.DataFrame) else x, dtype=float)
+    wide = np.hstack([a, np.ones((a.shape[0], 1))])
+    before = C.snapshot(det, name)
+    try:
+        C.seed_schedule(name, seed, len(prefix))
+        det.update(conv(wide, bad_kind))
+    except ValueError:
+        return ev + 1, True, None
+    except Exception as e:
+        if bad_kind == "df" and "df" not in prefix:
+            return ev + 1, True, "DataFrame after array inputs with a different width is accepted (%s after %s; later %s)" % (
+                bad_kind, "/".join(prefix), type(e).__name__)
+        return ev + 1, True, "input with another width (%s after %s) raised %s instead of ValueError" % (
+            bad_kind, "/".join(prefix), type(e).__name__)
+    if bad_kind == "df" and "df" not in prefix:
+        return ev + 1, True, "DataFrame after array inputs with a different width is accepted (%s after %s)" % (
+            bad_kind, "/".join(prefix))
+    return ev + 1, True, "an input with a different number of columns (%s) was accepted after %s inputs" % (
+        bad_kind, "/".join(prefix))
+
+
 def containers(kind, args, which):
     """equivalent values in another container"""
     if kind == "label":
@@ -577,7 +622,7 @@ def _scribble(x):
 
 CHECKS = {
     "lifecycle": check_lifecycle, "clean_slate": check_clean_slate, "set_reference": check_set_reference,
-    "rejected_call": check_rejected_call, "containers": check_containers, "agreement_only": check_agreement_only,
+    "rejected_call": check_rejected_call, "containers": check_containers, "mixed_width": check_mixed_width, "agreement_only": check_agreement_only,
     "unused_args": check_unused_args, "threshold": check_threshold, "warning_threshold": check_warning_threshold,
     "row_order": check_row_order, "nnps_order": check_nnps_order, "no_alias": check_no_alias,
 }
